@@ -80,8 +80,15 @@ class tt_dimscheck(Contract):
         if dims is not None:
             P = dims.shape[0]
             yield "len-equals-len-dims", S.eq(L, P)
-            yield "each-sdim-is-a-dim", S.forall(0, L, lambda i: S.exists(0, P, lambda j: sdims.fn(i) == dims.fn(j)))
-            yield "each-dim-is-an-sdim", S.forall(0, P, lambda j: S.exists(0, L, lambda i: sdims.fn(i) == dims.fn(j)))
+            gh = S.ctx.ghosts.get("argsort")
+            if gh:
+                p_, pinv_ = gh[-1]
+                fp = lambda t: p_(T.tz(t)) if not callable(getattr(p_, "__call__", None)) or True else p_(t)
+                yield "each-sdim-is-a-dim(witness p(i))", S.forall(0, L, lambda i: S.And(0 <= p_(i), p_(i) < P, sdims.fn(i) == dims.fn(p_(i)))), "lemma"
+                yield "each-dim-is-an-sdim(witness pinv(j))", S.forall(0, P, lambda j: S.And(0 <= pinv_(j), pinv_(j) < L, sdims.fn(pinv_(j)) == dims.fn(j))), "lemma"
+            else:
+                yield "each-sdim-is-a-dim", S.forall(0, L, lambda i: S.exists(0, P, lambda j: sdims.fn(i) == dims.fn(j)))
+                yield "each-dim-is-an-sdim", S.forall(0, P, lambda j: S.exists(0, L, lambda i: sdims.fn(i) == dims.fn(j)))
             yield "sdims-in-range", S.forall(0, L, lambda i: S.And(0 <= sdims.fn(i), sdims.fn(i) < Nn))
         elif ex is not None:
             E = ex.shape[0]
@@ -89,9 +96,15 @@ class tt_dimscheck(Contract):
             yield "sdims-in-range-not-excluded", S.forall(
                 0, L, lambda i: S.And(0 <= sdims.fn(i), sdims.fn(i) < Nn, S.forall(0, E, lambda q: ex.fn(q) != sdims.fn(i)))
             )
-            yield "every-non-excluded-mode-present", S.forall(
-                0, Nn, lambda v: S.Implies(S.forall(0, E, lambda q: ex.fn(q) != v), S.exists(0, L, lambda i: sdims.fn(i) == v))
-            )
+            gs = S.ctx.ghosts.get("setdiff1d")
+            if gs:
+                _, sdpos, sdslot = gs[-1]
+                yield "every-non-excluded-mode-present(witness slot(v))", S.forall(
+                    0, Nn, lambda v: S.Implies(S.forall(0, E, lambda q: ex.fn(q) != v), S.And(0 <= sdslot(v), sdslot(v) < L, sdims.fn(sdslot(v)) == v))), "lemma"
+            else:
+                yield "every-non-excluded-mode-present", S.forall(
+                    0, Nn, lambda v: S.Implies(S.forall(0, E, lambda q: ex.fn(q) != v), S.exists(0, L, lambda i: sdims.fn(i) == v))
+                )
         else:
             yield "all-modes", S.And(S.eq(L, T.smax(0, Nn)), S.forall(0, L, lambda i: sdims.fn(i) == i))
         if M is None:
@@ -135,24 +148,40 @@ class tt_ismember_rows(Contract):
         c = S.int("c", 1)
         return dict(search=S.row_matrix("search", p, c), source=S.row_matrix("source", m, c))
 
+    @staticmethod
+    def _degenerate(a):
+        return a["search"].ndim != 2 or a["source"].ndim != 2
+
     def requires(self, S, a):
         search, source = a["search"], a["source"]
-        yield "operands-are-matrices", search.ndim == 2 and source.ndim == 2
-        if search.ndim == 2 and source.ndim == 2:
+        if self._degenerate(a):
+            # the code returns "nothing matched" as soon as either operand is empty; a non-matrix
+            # operand is only meaningful when it is an empty placeholder
+            for nm, x in (("search", search), ("source", source)):
+                if x.ndim != 2:
+                    yield f"non-matrix-{nm}-is-empty", S.eq(N.size_of(S.ctx, x), 0)
+            yield "search-has-a-leading-extent", search.ndim >= 1
+        else:
             yield "same-nonzero-column-count", S.And(S.eq(search.shape[1], source.shape[1]), S.ge(search.shape[1], 1))
 
     def fresh_result(self, S, a):
         p = a["search"].shape[0]
-        N.ensure_rows(S.ctx, a["search"])
-        N.ensure_rows(S.ctx, a["source"])
+        if not self._degenerate(a):
+            N.ensure_rows(S.ctx, a["search"])
+            N.ensure_rows(S.ctx, a["source"])
         matched = Arr.fresh("matched", (p,), "bool")
         results = Arr.fresh("location", (p,), "int")
         return matched, results
 
     def ensures(self, S, a, ret):
         search, source = a["search"], a["source"]
-        p, m = search.shape[0], source.shape[0]
         matched, results = ret
+        if self._degenerate(a):
+            p = search.shape[0]
+            yield "shapes", S.And(S.eq(matched.shape[0], p), S.eq(results.shape[0], p))
+            yield "nothing-matched", S.forall(0, p, lambda k: S.And(S.Not(matched.fn(k)), results.fn(k) == -1))
+            return
+        p, m = search.shape[0], source.shape[0]
         yield "shapes", S.And(matched.ndim == 1, results.ndim == 1, S.eq(matched.shape[0], p), S.eq(results.shape[0], p))
         rs, rc = search.rowfn, source.rowfn
         k, j = z3.Int("k!e"), z3.Int("j!e")
@@ -275,3 +304,127 @@ class tt_ind2sub(Contract):
             0, k, lambda i: S.forall(0, Nn, lambda m: S.And(0 <= ret.fn(i, m), ret.fn(i, m) < a["shape"].fn(m)))
         )
         yield "inverse-of-sub2ind", S.forall(0, k, lambda i: RAV(srow, UNR(srow, wrap(old(i)))) == wrap(old(i)))
+
+
+def _distinct_rows(S, A, tag):
+    """requires-style assumption: the rows of A are pairwise distinct (ghost: position of a row)."""
+    n = A.shape[0]
+    pos = z3.Function(T.fresh_name(tag + "_pos"), N.Row, z3.IntSort())
+    i = z3.Int(tag + "!i")
+    S.assume(T.ForAll([i], z3.Implies(z3.And(0 <= i, T.tz(i < n)), pos(A.rowfn(i)) == i), [A.rowfn(i)]))
+    return pos
+
+
+@register
+class tt_intersect_rows(Contract):
+    qual = "pyttb.pyttb_utils.tt_intersect_rows"
+    props = ("C17", "C03", "C06", "C04")
+    doc = (
+        "For A with pairwise distinct rows (every call site: stored subscripts of a well-formed "
+        "sptensor, allsubs()) and arbitrary B (repeated rows allowed): the result lists, without "
+        "repetition, exactly the positions i of A whose row occurs in B, ordered by the first "
+        "occurrence of that row in B."
+    )
+
+    def setup(self, S, case):
+        n, m = S.nat("n"), S.nat("m")
+        c = S.int("c", 1)
+        A = S.row_matrix("A", n, c)
+        B = S.row_matrix("B", m, c)
+        posA = _distinct_rows(S, A, "A")
+        return dict(MatrixA=A, MatrixB=B, __posA__=posA)
+
+    def ensures(self, S, a, ret):
+        A, B = a["MatrixA"], a["MatrixB"]
+        n, m = A.shape[0], B.shape[0]
+        ra, rb = A.rowfn, B.rowfn
+        yield "vector", ret.ndim == 1
+        L = ret.shape[0]
+        t, u, i, j = z3.Int("t!x"), z3.Int("u!x"), z3.Int("i!x"), z3.Int("j!x")
+        yield "positions-of-common-rows", T.ForAll(
+            [t], z3.Implies(z3.And(0 <= t, T.tz(t < L)), z3.And(0 <= T.tz(ret.fn(t)), T.tz(ret.fn(t) < n),
+                                                          T.Exists([j], z3.And(0 <= j, T.tz(j < m), rb(j) == ra(T.tz(ret.fn(t))))))))
+        g = S.ctx.ghosts
+        if len(g.get("unique", [])) == 2 and len(g.get("argsort", [])) == 2 and g.get("select") and g.get("call:tt_ismember_rows"):
+            # Proof by explicit witnesses.  Row j of B is unique row invB(j), which sits at position
+            # s(j) = pinvB(invB(j)) of the first-occurrence ordering B' that is searched; A' = A because
+            # the rows of A are distinct (pigeonhole); the rank of s(j) among the matched rows is rk(s(j)).
+            (mA, idxA, invA), (mB, idxB, invB) = g["unique"]
+            # (argument evaluation order: argsort(idxB) is executed before argsort(idxA))
+            (pB, pinvB), (pA, pinvA) = g["argsort"]
+            (_, sel, rk) = g["select"][-1]
+            matched, loc = g["call:tt_ismember_rows"][0]
+            sj = lambda j_: pinvB(invB(j_))
+            yield "lemma:A'-is-A", z3.And(mA == T.tz(n), T.ForAll([i], z3.Implies(z3.And(0 <= i, T.tz(i < n)), idxA(pA(i)) == i), [pA(i)])), "lemma"
+            yield "lemma:row-j-of-B-sits-at-s(j)-in-B'", T.ForAll(
+                [j], z3.Implies(z3.And(0 <= j, T.tz(j < m)), z3.And(0 <= sj(j), sj(j) < mB, rb(idxB(pB(sj(j)))) == rb(j))), [rb(j)]), "lemma"
+            yield "lemma:s(j)-is-matched-at-i", T.ForAll(
+                [i, j], z3.Implies(z3.And(0 <= i, T.tz(i < n), 0 <= j, T.tz(j < m), ra(i) == rb(j)),
+                                   z3.And(T.tz(matched.fn(sj(j))), T.tz(loc.fn(sj(j))) == i)), [[ra(i), rb(j)]]), "lemma"
+            w = lambda j_: rk(sj(j_))
+            yield "every-common-row-listed(witness)", T.ForAll(
+                [i, j], z3.Implies(z3.And(0 <= i, T.tz(i < n), 0 <= j, T.tz(j < m), ra(i) == rb(j)),
+                                   z3.And(0 <= w(j), T.tz(w(j) < L), T.tz(ret.fn(w(j))) == i)), [[ra(i), rb(j)]]), "lemma"
+        else:
+            yield "every-common-row-listed", T.ForAll(
+                [i, j], z3.Implies(z3.And(0 <= i, T.tz(i < n), 0 <= j, T.tz(j < m), ra(i) == rb(j)),
+                                   T.Exists([t], z3.And(0 <= t, T.tz(t < L), T.tz(ret.fn(t)) == i))))
+        yield "no-repetition", T.ForAll(
+            [t, u], z3.Implies(z3.And(0 <= t, t < u, T.tz(u < L)), T.tz(ret.fn(t)) != T.tz(ret.fn(u))))
+
+
+@register
+class tt_setdiff_rows(Contract):
+    qual = "pyttb.pyttb_utils.tt_setdiff_rows"
+    props = ("C17", "C03", "C06", "C04")
+    doc = (
+        "For A with pairwise distinct rows and arbitrary B: the result is the strictly ascending "
+        "list of exactly the positions i of A whose row does not occur in B."
+    )
+
+    def setup(self, S, case):
+        n, m = S.nat("n"), S.nat("m")
+        c = S.int("c", 1)
+        A = S.row_matrix("A", n, c)
+        B = S.row_matrix("B", m, c)
+        posA = _distinct_rows(S, A, "A")
+        return dict(MatrixA=A, MatrixB=B, __posA__=posA)
+
+    def ensures(self, S, a, ret):
+        A, B = a["MatrixA"], a["MatrixB"]
+        n, m = A.shape[0], B.shape[0]
+        ra, rb = A.rowfn, B.rowfn
+        yield "vector", ret.ndim == 1
+        L = ret.shape[0]
+        t, u, i, j = z3.Int("t!x"), z3.Int("u!x"), z3.Int("i!x"), z3.Int("j!x")
+        g = S.ctx.ghosts
+        full = len(g.get("unique", [])) == 2 and len(g.get("argsort", [])) == 2 and g.get("select") and g.get("call:tt_ismember_rows") and g.get("setdiff1d")
+        if full:
+            (mA, idxA, invA), (mB, idxB, invB) = g["unique"]
+            (pB, pinvB), (pA, pinvA) = g["argsort"]
+            (_, sel, rk) = g["select"][-1]
+            matched, loc = g["call:tt_ismember_rows"][0]
+            (_, sdpos, sdslot) = g["setdiff1d"][-1]
+            sj = lambda j_: pinvB(invB(j_))
+            yield "lemma:A'-is-A", z3.And(mA == T.tz(n), T.ForAll([i], z3.Implies(z3.And(0 <= i, T.tz(i < n)), idxA(pA(i)) == i), [pA(i)])), "lemma"
+            yield "lemma:idxA-onto", T.ForAll([i], z3.Implies(z3.And(0 <= i, T.tz(i < n)), z3.And(0 <= pA(i), pA(i) < mA, idxA(pA(i)) == i)), [pA(i)]), "lemma"
+            yield "lemma:row-j-of-B-sits-at-s(j)-in-B'", T.ForAll(
+                [j], z3.Implies(z3.And(0 <= j, T.tz(j < m)), z3.And(0 <= sj(j), sj(j) < mB, rb(idxB(pB(sj(j)))) == rb(j))), [rb(j)]), "lemma"
+            yield "lemma:s(j)-is-matched-at-i", T.ForAll(
+                [i, j], z3.Implies(z3.And(0 <= i, T.tz(i < n), 0 <= j, T.tz(j < m), ra(i) == rb(j)),
+                                   z3.And(T.tz(matched.fn(sj(j))), T.tz(loc.fn(sj(j))) == i)), [[ra(i), rb(j)]]), "lemma"
+        yield "strictly-ascending", T.ForAll([t, u], z3.Implies(z3.And(0 <= t, t < u, T.tz(u < L)), T.tz(ret.fn(t)) < T.tz(ret.fn(u))))
+        yield "positions-of-rows-absent-from-B", T.ForAll(
+            [t, j], z3.Implies(z3.And(0 <= t, T.tz(t < L), 0 <= j, T.tz(j < m)),
+                               z3.And(0 <= T.tz(ret.fn(t)), T.tz(ret.fn(t) < n), rb(j) != ra(T.tz(ret.fn(t))))))
+        if full:
+            # witness for completeness: position i of A is value idxA(pA(i)) = i of the first argument of
+            # setdiff1d, at index pA(i); its slot in the result is sdslot(pA(i))
+            w = lambda i_: sdslot(pA(i_))
+            yield "every-absent-row-listed(witness)", T.ForAll(
+                [i], z3.Implies(z3.And(0 <= i, T.tz(i < n), T.ForAll([j], z3.Implies(z3.And(0 <= j, T.tz(j < m)), rb(j) != ra(i)))),
+                                z3.And(0 <= w(i), T.tz(w(i) < L), T.tz(ret.fn(w(i))) == i)), [ra(i)]), "lemma"
+        else:
+            yield "every-absent-row-listed", T.ForAll(
+                [i], z3.Implies(z3.And(0 <= i, T.tz(i < n), T.ForAll([j], z3.Implies(z3.And(0 <= j, T.tz(j < m)), rb(j) != ra(i)))),
+                                T.Exists([t], z3.And(0 <= t, T.tz(t < L), T.tz(ret.fn(t)) == i))))
